@@ -146,30 +146,3 @@ Definition rw_string (f : bytes -> bytes) (s : scalar) : option scalar :=
 (* the scalars of a document, in document order *)
 Definition scalars (t : tbl) : list scalar :=
   flat_map (fun n => match n with NValue (VScalar s _ _) => [s] | _ => [] end) (nodes t).
-
-(* ---- placeholders inside inline tables ---------------------------------------------------- *)
-
-(* no inline table (reachable through the nodes above) holds an `Item::None` entry.
-   The parser never stores one; `doc["t"]["x"]` on an inline table `t` without key `x` does
-   (index.rs: `t.items.entry(..).or_insert_with(|| Item::None)`). *)
-Fixpoint nip_value (v : value) : bool :=
-  match v with
-  | VScalar _ _ _ => true
-  | VArray vals _ _ _ _ =>
-    forallb (fun it => match it with IValue e => nip_value e | _ => true end) vals
-  | VInline items _ _ _ _ _ =>
-    forallb (fun kv => match kv with (_, i) => negb (item_is_none i) && nip_item i end) items
-  end
-with nip_item (i : item) : bool :=
-  match i with
-  | INone => true
-  | IValue v => nip_value v
-  | ITable t => nip_tbl t
-  | IAot ts _ => forallb (fun t => nip_tbl t) ts
-  end
-with nip_tbl (t : tbl) : bool :=
-  match t with
-  | Tbl items _ _ _ _ _ => forallb (fun kv => match kv with (_, i) => nip_item i end) items
-  end.
-
-Definition no_inline_placeholder (t : tbl) : bool := nip_tbl t.
